@@ -23,7 +23,7 @@ RULE = ("cases = (script as token lists, layout): generated CREATE TABLE (core +
         ", ( )), line breaks at any gap with blank / blank-only lines and indentation, CRLF for all or some line ends; never a "
         "break before a statement-level word (the property's proviso); plus regression-corpus scripts under text-level freedoms "
         "(CRLF, trailing blanks, blank lines). A TAB or line break directly before a quoted literal is generated separately "
-        "(known finding). Non-trivial = the variant text differs from the canonical text; distinct = distinct variant text.")
+        "(known finding; narrowed after the sixth seeded wave to a quote as the first character of a line and to word-glued-to-separator + TAB + quote). Non-trivial = the variant text differs from the canonical text; distinct = distinct variant text.")
 RULE += (" Added after seeded defects: tables may also carry AUTO_INCREMENT / AUTOINCREMENT, COLLATE, COMMENT and CHECK column options, sort directions and [NON]CLUSTERED on key clauses, parenthesised and decimal defaults, tricky vocabulary names.")
 ASSUMPTIONS = ["the canonical rendering's result is the reference (its content is decided by C01/C02/C04/C17)",
                "values (CASCADE, type names, TRUE) and identifiers are never re-cased by the renderer",
@@ -140,7 +140,7 @@ def check_case(ctx, case):
         rb, rv = ("ok", entities(rb[1])), ("ok", entities(rv[1]))
     if rb != rv:
         kf = None
-        if case["layout_name"] == "before_quote" and re.search(r"[\t\n]'", var):
+        if case["layout_name"] == "before_quote" and re.search(r"\n'|[,()]\w+[ ]*\t[ ]*'", var):
             kf = "C05:newline-before-quote"
         detail = {"canonical": short(rb, 300), "variant": short(rv, 300)}
         if rb[0] == "ok" and rv[0] == "ok":
@@ -166,9 +166,52 @@ def corpus_variants(rng, ddl):
     yield "crlf_trailing", "\r\n".join(l + rng.choice(TRAIL) for l in lines)
 
 
+STMT_HEAD = re.compile(r"^(CREATE\s+(OR\s+REPLACE\s+)?((EXTERNAL|TEMPORARY|TRANSIENT|UNIQUE)\s+)*(TABLE|INDEX|SEQUENCE)\b|ALTER\s+TABLE\b)", re.I)
+LINE_START = {"CREATE", "ALTER", "DROP", "SET", "GO", "USE", "INSERT", "GRANT", "DELETE"}
+
+
+def rebreak(text, rng, p=0.3):
+    """text-level line breaks: every one-line CREATE TABLE / ALTER TABLE / CREATE INDEX / CREATE SEQUENCE statement of the script may be
+    broken at any blank outside quotes (continuation lines indented; never before a statement-level word or directly before a quote)"""
+    out = []
+    for line in text.split("\n"):
+        if not STMT_HEAD.match(line) or not line.rstrip().endswith(";") or any(m in line for m in ("--", "/*", "*/", "#")) or line.count("'") % 2 or line.count('"') % 2:
+            out.append(line)
+            continue
+        buf, q = [], None
+        for i, ch in enumerate(line):
+            if q:
+                if ch == q:
+                    q = None
+                buf.append(ch)
+                continue
+            if ch in "'\"`":
+                q = ch
+                buf.append(ch)
+                continue
+            if ch == " " and i + 1 < len(line) and line[i + 1] not in " \t'\"`;" and (i == 0 or line[i - 1] not in " \t") and rng.random() < p:
+                nxt = re.match(r"\w+", line[i + 1:])
+                if not (nxt and nxt.group(0).upper() in LINE_START):
+                    buf.append(rng.choice(["\n  ", "\n    ", "\n\t", " \n  "]))
+                    continue
+            buf.append(ch)
+        out.append("".join(buf))
+    return "\n".join(out)
+
+
 def run_shard(ctx):
     rng = ctx.rng
     nvar = 8 if ctx.tier == "quick" else 10
+    # statements of every generator of the framework (dialect clauses, options written key=value, literals ...) re-broken at text level
+    from vf.gen import scripts as GS
+    from vf.gen import sources
+    for j in range(ctx.budget(260, 6000)):
+        text = GS.gen_mixed(rng)["text"] if j % 2 else sources.any_script(rng)[1]
+        for q in range(2):
+            var = rebreak(text, rng, p=[0.25, 0.6][q])
+            if var != text:
+                check_case(ctx, {"gen": "pool", "layout_name": "textnl", "base": text, "variant": var})
+                ctx.obs["text_level_rebroken_scripts"] += 1
     for j in range(ctx.budget(450, 4000)):
         stmts = gen_script_tokens(rng)
         base = render_script(stmts, None, rng)
@@ -179,7 +222,7 @@ def run_shard(ctx):
         if rng.random() < 0.15:
             name, lay = KF_LAYOUT
             var = render_script(stmts, lay, rng)
-            if re.search(r"[\t\n]'", var):
+            if re.search(r"\n'|[,()]\w+[ ]*\t[ ]*'", var):
                 check_case(ctx, {"gen": "generated", "layout_name": name, "layout": lay, "base": base, "variant": var})
         if j == 0:
             ctx.sample({"canonical": base[:500], "variant_all": render_script(stmts, dict(LAYOUTS)["all"], rng)[:700]})
